@@ -16,6 +16,7 @@ import (
 	"github.com/peterstace/simplefeatures/geom"
 	"pgregory.net/rapid"
 
+	"verif/internal/apienum"
 	"verif/internal/gen"
 	"verif/internal/gm"
 	"verif/internal/h"
@@ -605,6 +606,24 @@ func c06CheckGeom(model gm.G, cx *h.Ctx) *h.Failure {
 	if err != nil {
 		return h.Failf("geojson/marshal-error", "MarshalJSON of %s: %v", model, err)
 	}
+	// the returned bytes are the caller's: further direct MarshalJSON calls (same and other types, through
+	// Geometry and through the concrete types) must leave them alone
+	held := append([]byte(nil), out...)
+	for _, other := range []geom.Geometry{dirty(model.T), g, dirty(gm.MultiPoint), dirty(gm.GeometryCollection)} {
+		for _, rv := range apienum.Receivers(other)[:2] {
+			if m := rv.MethodByName("MarshalJSON"); m.IsValid() && m.Type().NumIn() == 0 {
+				res := m.Call(nil)
+				if other.Type() == g.Type() && other.AsText() == g.AsText() {
+					if b := res[0].Bytes(); !bytes.Equal(b, held) {
+						return h.Failf("geojson/typed-marshal-differs", "%s.MarshalJSON() = %s, Geometry.MarshalJSON() = %s", rv.Type().Name(), clip(string(b), 300), clip(string(held), 300))
+					}
+				}
+			}
+		}
+	}
+	if !bytes.Equal(out, held) {
+		return h.Failf("geojson/result-overwritten", "the bytes returned by MarshalJSON changed after later MarshalJSON calls:\nwas %s\nnow %s", clip(string(held), 300), clip(string(out), 300))
+	}
 	if !json.Valid(out) {
 		return h.Failf("geojson/invalid-json", "MarshalJSON of %s is not valid JSON: %s", model, out)
 	}
@@ -647,6 +666,15 @@ func c06CheckGeom(model gm.G, cx *h.Ctx) *h.Failure {
 	// concrete types: succeeds iff the type matches
 	if f := c06Concrete(out, model.T, want); f != nil {
 		return f
+	}
+	// a null document matches no geometry type
+	for _, nd := range []string{"null", " null ", "null\n"} {
+		if f := c06Concrete([]byte(nd), "null", want); f != nil {
+			return f
+		}
+		if _, err := geom.UnmarshalGeoJSON([]byte(nd)); err == nil {
+			return h.Failf("geojson/null-accepted", "UnmarshalGeoJSON(%q) succeeded", nd)
+		}
 	}
 	if model.T == gm.GeometryCollection || model.CT != 0 && model.NumPositions() >= 2 || hasEmptyMember(model) {
 		cx.NonTrivial()
